@@ -2,6 +2,7 @@
 import json
 import random
 import re
+import zlib
 import time
 from decimal import Decimal
 
@@ -194,8 +195,14 @@ def check_case(res, model, impl, text, names, arrays, sg, stats):
     if not executed:
         return None
     before = impl.blackbird.dumps(t) if False else None
+    sg_call = dict(sg)
+    for k_, v_ in sg.items():
+        if isinstance(v_, list) and zlib.crc32(repr(v_).encode()) % 2 == 0:
+            # the same 2-D value as a NumPy array that is not in C memory order (transposed view / Fortran order / reversed rows of a flipped copy)
+            a_ = np.array(v_)
+            sg_call[k_] = [np.asfortranarray(a_), a_.T.copy().T, a_[::-1].copy()[::-1]][zlib.crc32(repr(v_).encode()) // 2 % 3]
     try:
-        inst = t(**sg)
+        inst = t(**sg_call)
     except Exception as e:  # noqa: BLE001
         return "instantiating a template with all values given fails: %s: %s" % (type(e).__name__, str(e)[:120])
     if inst.parameters or inst.is_template():
